@@ -1727,3 +1727,127 @@ pub fn close_with_unread_scenario(ch: &mut Chooser, _thorough: bool) -> Exec {
     }
     Exec { outcome: Digest::of64(&obs), violation, features: vec![] }
 }
+
+/// C13, an abortive close whose RST may be lost: the connector writes `n` bytes and drops its
+/// stream (a clean close on its side: it lingers until the close handshake is through); the
+/// acceptor never reads and drops its stream `w` rounds later -- with unread bytes, so its close
+/// is a reset -- and keeps its listener. The k-th packet the acceptor emits is lost. Both sides
+/// have dropped the connection: within a bounded number of rounds neither host holds a socket,
+/// binding or connection entry for it any more (the listener stays).
+pub fn lost_rst_scenario(ch: &mut Chooser, _thorough: bool) -> Exec {
+    let lat: u32 = 1 + ch.choose("one_way_latency_rounds_minus_1", 2) as u32;
+    let n: usize = *ch.of("bytes_written_by_the_connector", &[1usize, 6]);
+    let w: u32 = *ch.of("rounds_before_the_acceptor_drops", &[0u32, 3, 8]);
+    let lose_k: usize = ch.choose("lost_packet_index_among_the_acceptors_packets", 6);
+    let kc = KernelConfig::default().mtu(1500);
+    let mut net = Net::with_config(kc);
+    let (cip, sip): (IpAddr, IpAddr) = ("10.0.0.1".parse().unwrap(), "10.0.0.2".parse().unwrap());
+    let c = net.add_host(cip);
+    let s = net.add_host(sip);
+    let hosts = [c, s];
+    let guard = net.enter();
+    let round: Rc<RefCell<u32>> = Rc::new(RefCell::new(0));
+    let done: Rc<RefCell<[bool; 2]>> = Rc::new(RefCell::new([false; 2]));
+    let notes: Rc<RefCell<Vec<String>>> = Rc::new(RefCell::new(vec![]));
+    let mut exec = Executor::new();
+    {
+        let (done, round) = (done.clone(), round.clone());
+        exec.spawn(1, async move {
+            let Ok(l) = TcpListener::bind(SocketAddr::new(sip, 80)).await else { return };
+            let Ok((st, _)) = l.accept().await else { return };
+            let until = *round.borrow() + w;
+            std::future::poll_fn(|cx| {
+                if *round.borrow() >= until {
+                    std::task::Poll::Ready(())
+                } else {
+                    cx.waker().wake_by_ref();
+                    std::task::Poll::Pending
+                }
+            })
+            .await;
+            drop(st);
+            done.borrow_mut()[1] = true;
+            std::future::pending::<()>().await;
+            drop(l);
+        });
+    }
+    {
+        let (done, notes) = (done.clone(), notes.clone());
+        exec.spawn(0, async move {
+            let mut st = match TcpStream::connect(SocketAddr::new(sip, 80)).await {
+                Ok(s) => s,
+                Err(e) => {
+                    notes.borrow_mut().push(format!("connect: {}", errk(&e)));
+                    done.borrow_mut()[0] = true;
+                    return;
+                }
+            };
+            let data: Vec<u8> = (0..n).map(|i| i as u8 + 1).collect();
+            if let Err(e) = st.write_all(&data).await {
+                notes.borrow_mut().push(format!("connector: write: {}", errk(&e)));
+            }
+            drop(st);
+            done.borrow_mut()[0] = true;
+        });
+    }
+    let mut wire: VecDeque<(u32, turmoil_net::Packet)> = VecDeque::new();
+    let horizon = 400u32;
+    let mut sent_by_acceptor = 0usize;
+    let mut lost_desc = String::from("none (the acceptor sent fewer packets)");
+    let mut reclaimed_at: Option<u32> = None;
+    for r in 0..horizon {
+        *round.borrow_mut() = r;
+        while wire.front().map(|(t, _)| *t <= r).unwrap_or(false) {
+            let (_, p) = wire.pop_front().unwrap();
+            guard.deliver(p);
+        }
+        exec.run_until_stalled(4000, |tag| turmoil_net::set_current(hosts[tag as usize]));
+        let mut out = vec![];
+        guard.egress_all(&mut out);
+        for p in out {
+            if p.src == sip {
+                let idx = sent_by_acceptor;
+                sent_by_acceptor += 1;
+                if idx == lose_k {
+                    lost_desc = match &p.payload {
+                        turmoil_net::Transport::Tcp(sg) => format!("#{idx} (syn={} fin={} rst={} payload {} bytes)", sg.flags.syn, sg.flags.fin, sg.flags.rst, sg.payload.len()),
+                        _ => format!("#{idx}"),
+                    };
+                    continue;
+                }
+            }
+            wire.push_back((r + lat, p));
+        }
+        let d = *done.borrow();
+        if d[0] && d[1] {
+            let (cc, sc) = (turmoil_net::verif_counts(cip), turmoil_net::verif_counts(sip));
+            if cc == (0, 0, 0) && sc == (1, 1, 0) {
+                reclaimed_at = Some(r);
+                break;
+            }
+        }
+    }
+    let what = format!("the connector writes {n} bytes and drops its stream, the acceptor never reads and drops its stream {w} rounds after accepting (a reset: it had unread bytes); lost: the acceptor's packet {lost_desc} (latency {lat})");
+    let mut violation: Option<Violation> = None;
+    if reclaimed_at.is_none() {
+        violation = Some(Violation::new(
+            "not-reclaimed",
+            format!(
+                "{what}: both sides have dropped the connection, yet {horizon} rounds into the run the tables hold connector {:?} (want (0, 0, 0)), acceptor {:?} (want the listener alone: (1, 1, 0)) (sockets, bindings, connections); notes {:?}",
+                turmoil_net::verif_counts(cip),
+                turmoil_net::verif_counts(sip),
+                notes.borrow()
+            ),
+        ));
+    }
+    drop(exec);
+    drop(guard);
+    let obs = format!("lat={lat} n={n} w={w} lose_k={lose_k} lost={lost_desc} reclaimed_at={reclaimed_at:?}");
+    if let Some(v) = violation.as_mut() {
+        let kind = if lost_desc.contains("rst=true") { "rst-lost" } else { "other-packet-lost" };
+        v.sig = format!("lost-rst|{}|{kind}", v.clause);
+        v.scenario = format!("c13-lost-rst {obs}");
+        v.actions = vec![obs.clone()];
+    }
+    Exec { outcome: Digest::of64(&obs), violation, features: vec![] }
+}
